@@ -90,6 +90,19 @@ var variantNames = []string{
 	"selectors-by-expressions-with-invalid-and-empty-entries",
 	"no-selector-instead-of-non-matching",
 	"canonical-again",
+	"dns-clusterfirstwithhostnet-host-pid-ipc",
+	"randomised-irrelevant-fields",
+}
+
+var dnsPolicies = []corev1.DNSPolicy{"", corev1.DNSClusterFirst, corev1.DNSClusterFirstWithHostNet, corev1.DNSDefault, corev1.DNSNone}
+
+// mix is a small deterministic hash (per row and purpose) for the randomised variant.
+func mix(i, salt int) int {
+	x := uint64(i)*0x9e3779b97f4a7c15 + uint64(salt)*0xbf58476d1ce4e5b9
+	x ^= x >> 29
+	x *= 0x94d049bb133111eb
+	x ^= x >> 32
+	return int(x % 1000003)
 }
 
 // documentedIgnored: the system namespaces the injector documents as never injected (stated here independently of
@@ -215,6 +228,35 @@ func realise(r row, variant int) (*inject.Config, *corev1.PodSpec, metav1.Object
 	cfg.NeverInjectSelector = mk("verif/never", r.never)
 	cfg.AlwaysInjectSelector = mk("verif/always", r.always)
 
+	if variant == 7 {
+		// the DNS policy that usually accompanies host networking, on every row
+		spec.DNSPolicy = corev1.DNSClusterFirstWithHostNet
+		spec.HostPID, spec.HostIPC = true, true
+		spec.HostUsers = nil
+	}
+	if variant == 8 {
+		// every irrelevant field drawn per row from its whole range
+		spec.DNSPolicy = dnsPolicies[mix(i, 1)%len(dnsPolicies)]
+		spec.HostPID = mix(i, 2)%2 == 0
+		spec.HostIPC = mix(i, 3)%2 == 0
+		spec.RestartPolicy = []corev1.RestartPolicy{"", corev1.RestartPolicyAlways, corev1.RestartPolicyNever, corev1.RestartPolicyOnFailure}[mix(i, 4)%4]
+		spec.ServiceAccountName = []string{"", "default", "sa"}[mix(i, 5)%3]
+		spec.PriorityClassName = []string{"", "system-node-critical"}[mix(i, 6)%2]
+		meta.Name = []string{"", "p", "istio-proxy"}[mix(i, 7)%3]
+		meta.GenerateName = []string{"", "g-"}[mix(i, 8)%2]
+		if mix(i, 9)%2 == 0 {
+			meta.Annotations["sidecar.istio.io/Inject"] = "true" // other capitalisation: a different key
+			meta.Annotations["inject.istio.io/templates"] = []string{"sidecar", "gateway", "nonexistent"}[mix(i, 10)%3]
+		}
+		if mix(i, 11)%2 == 0 {
+			meta.Labels["sidecar.istio.io/Inject"] = "false"
+			meta.Labels["istio.io/rev"] = []string{"default", "canary"}[mix(i, 12)%2]
+		}
+		if mix(i, 13)%3 == 0 {
+			spec.Containers = []corev1.Container{{Name: "istio-proxy", Image: "auto"}}
+		}
+		cfg.DefaultTemplates = [][]string{nil, {"sidecar"}, {"gateway", "sidecar"}}[mix(i, 14)%3]
+	}
 	if variant == 1 {
 		// fields the decision must not depend on
 		tr := true
